@@ -145,10 +145,10 @@ PROPS["C13"] = {
 
 PROPS["C15"] = {
     "modules": ["OxiaVerif.Props.C15"],
-    "facts": ["secondaryGetChecksIndexName", "secondaryGetEndOfKeySpaceSafe"],
+    "facts": ["secondaryGetChecksIndexName", "secondaryGetEndOfKeySpaceSafe", "secondaryIndexRegexAllowsEmptyKey"],
     "trusted_base": [KERNEL, EXTRACT, CORR, DBTRUST, "Go regexp semantics of the index-key pattern, transcribed by hand (parseIdxKey)"],
     "assumptions": ["exactness of the index content (entries = pairs declared by live records) is checked on the real code by the harness oracle after every write, not proved",
-                    "well-formed index declarations: index name without '/', secondary key non-empty and without \\x01; an empty secondary key is stored as an unparsable index key (found by reading: D-22, not exercised by the generator)"],
+                    "well-formed index declarations: index name without '/' (the name 'i/x' with key 'b' is the same stored entry as the name 'i' with key 'x/b') and secondary key without \\x01 (the entry then parses with a wrong primary key); empty secondary keys are generated (the iterator used to panic on them: fixed D-52, noted as D-22 when reading)"],
     "rule": DBRULE + ", with 2-4 indexes whose names are order-adjacent (i, i0, i1, j), secondary keys at the extremes, records moved between indexes and re-declared, and all five comparison gets at and beyond both edges of every index; a dump precedes every index query. Oracle: stored index entries == pairs declared by the live records; a get returns an entry of the requested index, satisfying the comparison, with no closer entry; found iff some entry matches. Non-trivial = an index query that found a record.",
     "level_text": "Machine-checked proof (Lean 4): for every store, key and comparison type, every record an index get returns comes from an index key of the requested index (given the two facts read from doSecondaryGet on every run; concrete counterexample without the check = defect D-21), and the primary key stored in an index key is recovered exactly (PathUnescape . PathEscape = id for every byte string). Index maintenance and all index reads are tied to server/secondary_indexes.go + db.go by differential runs with an independent exactness oracle.",
     "level_note": "Trusted: Lean kernel; extractor rules on doSecondaryGet; hand transcription of the regexp, url.PathEscape and the iterator loop; " + DBTRUST + ". Partial: index exactness is oracle-checked, not proved.",
